@@ -108,7 +108,7 @@ def merge_case(b, l, r, args, props):
     if 'C04' in props:
         err = validate_strict(merged)
         if err:
-            out.append(('C04', 'invalid:' + classify_invalid(merged, err), 'merged notebook (minor %s) does not validate: %s'
+            out.append(('C04', 'invalid:' + classify_invalid(merged, err, (b, l, r)), 'merged notebook (minor %s) does not validate: %s'
                         % (merged.get('nbformat_minor'), err)))
     if 'C09' in props or 'C11' in props:
         dplain = to_plain(decisions)
@@ -187,8 +187,28 @@ def wf_relaxed(base, dd):
     return specs.wf_deep(base, dd2) if dd2 else True
 
 
-def classify_invalid(merged, err):
-    "coarse class of a schema violation (used to match recorded findings)"
+def _retyped_cells(inputs):
+    """(ids, sources) of base cells whose cell_type one side changed (same id; without ids: same position and same source)"""
+    ids, sources = set(), set()
+    if not inputs:
+        return ids, sources
+    b, l, r = inputs
+    for side in (l, r):
+        byid = {c.get('id'): c for c in side.get('cells', []) if c.get('id') is not None}
+        for k, c in enumerate(b.get('cells', [])):
+            o = byid.get(c.get('id')) if c.get('id') is not None else None
+            if o is None and c.get('id') is None and k < len(side.get('cells', [])) and side['cells'][k].get('source') == c.get('source'):
+                o = side['cells'][k]
+            if o is not None and o.get('cell_type') != c.get('cell_type'):
+                ids.add(c.get('id'))
+                sources.add(c.get('source'))
+                sources.add(o.get('source'))
+    return ids, sources
+
+
+def classify_invalid(merged, err, inputs=None):
+    """class of a schema violation, specific enough to identify a recorded finding by its cause (the shape of the inputs), not
+    just by the wording of the schema error"""
     minor = merged.get('nbformat_minor', 0)
     if "'id' was unexpected" in err and minor < 5:
         # which cells carry the id?
@@ -197,15 +217,28 @@ def classify_invalid(merged, err):
             return 'marker-id-pre45'
         return 'id-pre45'
     if 'is not of type' in err and "/id" in err:
-        return 'id-not-string'
+        m = re.search(r'/cells/(\d+)/id', err)
+        cid = merged['cells'][int(m.group(1))].get('id') if m else None
+        # the recorded finding: the cell built for two similar concurrent inserts carries {'local_id':.., 'remote_id':..}
+        return 'id-not-string' if isinstance(cid, dict) and set(cid) == {'local_id', 'remote_id'} else 'id-bad-type'
     if "'id' is a required property" in err:
         m = re.search(r'at /cells/(\d+)$', err)
         if m and merged['cells'][int(m.group(1))].get('source', '').startswith('<span style="color:red">'):
             return 'marker-id-missing'
-        return 'id-missing'
+        # the recorded finding: both sides upgraded a pre-4.5 base to 4.5
+        if inputs and inputs[0].get('nbformat_minor', 0) < 5 and all(x.get('nbformat_minor', 0) >= 5 for x in inputs[1:]):
+            return 'id-missing'
+        return 'id-missing-other'
     if re.search(r"'(outputs|execution_count)'(, '(outputs|execution_count)')* (was|were) unexpected\) at /cells/\d+$", err) or \
             re.search(r"^'(outputs|execution_count)' is a required property at /cells/\d+$", err):
-        return 'retype-key'
+        m = re.search(r'at /cells/(\d+)$', err)
+        cell = merged['cells'][int(m.group(1))] if m else {}
+        ids, sources = _retyped_cells(inputs)
+        # the recorded finding: a side changed the cell_type of an existing cell
+        if (cell.get('id') is not None and cell.get('id') in ids) or (ids == {None} or (not ids and sources)) and cell.get('source') in sources \
+                or (None in ids and cell.get('source') in sources):
+            return 'retype-key'
+        return 'code-keys-misplaced'
     return 'other:' + re.sub(r"'[^']*'", "'..'", err)[:60]
 
 
@@ -246,22 +279,40 @@ def laws_case(b, x, args, label):
     return out
 
 
-def symmetry_case(b, l, r, args):
+def symmetry_case(b, l, r, args, known_crash_sites=()):
     from nbdime.merging import merge_notebooks
     from nbdime.diffing.notebooks import diff_notebooks
     try:
         if same_position_inserts(to_plain(diff_notebooks(b, l)), to_plain(diff_notebooks(b, r))):
             return [], False
-        m1, d1 = merge_notebooks(copy.deepcopy(b), copy.deepcopy(l), copy.deepcopy(r), args)
-        # a strategy that names a side (use-local / use-remote) is swapped together with the roles
-        sw = {'use-local': 'use-remote', 'use-remote': 'use-local'}
-        args2 = copy.copy(args)
-        args2.merge_strategy = sw.get(args.merge_strategy, args.merge_strategy)
-        args2.input_strategy = sw.get(args.input_strategy, args.input_strategy)
-        args2.output_strategy = sw.get(args.output_strategy, args.output_strategy)
-        m2, d2 = merge_notebooks(copy.deepcopy(b), copy.deepcopy(r), copy.deepcopy(l), args2)
-    except Exception as exc:
-        return [], False          # crashes are C03's business
+    except Exception:
+        return [], False
+    # a strategy that names a side (use-local / use-remote) is swapped together with the roles
+    sw = {'use-local': 'use-remote', 'use-remote': 'use-local'}
+    args2 = copy.copy(args)
+    args2.merge_strategy = sw.get(args.merge_strategy, args.merge_strategy)
+    args2.input_strategy = sw.get(args.input_strategy, args.input_strategy)
+    args2.output_strategy = sw.get(args.output_strategy, args.output_strategy)
+    res, errs = [], []
+    for (x, y, a) in ((l, r, args), (r, l, args2)):
+        try:
+            res.append(merge_notebooks(copy.deepcopy(b), copy.deepcopy(x), copy.deepcopy(y), a))
+            errs.append(None)
+        except Exception as exc:
+            res.append(None)
+            errs.append(exc)
+    if errs[0] is not None and errs[1] is not None:
+        return [], False          # a merge that aborts in both role assignments is C03's business
+    if errs[0] is not None or errs[1] is not None:
+        # one role assignment gives a verdict, the other aborts: no "same verdict" (sites recorded as C03 findings are left to C03)
+        exc = errs[0] or errs[1]
+        site = 'crash:' + exc_site(exc)
+        if site in known_crash_sites:
+            return [], False
+        ok = res[0] or res[1]
+        return [('C05', 'symmetry:one-order-raises', 'merge(b,%s) gives conflict=%s but with local and remote swapped it raises %s [%s]'
+                 % ('l,r' if errs[1] else 'r,l', any(d.conflict for d in ok[1]), exc_summary(exc), site))], True
+    (m1, d1), (m2, d2) = res
     c1 = any(d.conflict for d in d1)
     c2 = any(d.conflict for d in d2)
     out = []
